@@ -259,7 +259,10 @@ func (m *C14) After(w *world.World, a *world.Action, r *world.StepResult) *Viola
 				continue // validator removed from staking: its records are deleted by the hook
 			}
 			// automatic opt-in of Top-N validators happens at epochs and at launch, and only adds the record
-			if (epoch || launchedNow) && co.Shaping.Top_N > 0 && strings.Replace(before, "optedin=false", "optedin=true", 1) == after {
+			// (the Top-N value in force when the epoch ran may be the one from before the block: a governance
+			// proposal executed in the same block, after the provider's end-blocker, can have cleared it)
+			topN := co.Shaping.Top_N > 0 || (m.preCons[id] != nil && m.preCons[id].Shaping.Top_N > 0)
+			if (epoch || launchedNow) && topN && strings.Replace(before, "optedin=false", "optedin=true", 1) == after {
 				continue
 			}
 			return violf(P, "validator-record-changed", "consumer %s: records of validator %s changed from [%s] to [%s] in block %d without an accepted message signed by its operator", id, name, before, after, r.Block.Height)
